@@ -7,7 +7,7 @@ ASSUMPTIONS = ["whether each conversion equals serde's on every identifier is a 
 
 
 def run(ctx):
-    out = [F.naming_rule(ctx.mir("default")["ts_rs_macros"], "C09"), T.rename_all_fields_rule(ctx.syn, "C09"), X.inflection_table_rule(ctx.mir("default")["ts_rs_macros"], "C09"), F.variant_name_flow_rule(ctx.mir("default")["ts_rs_macros"], "C09"), T.post_merge_rule(ctx.mir("default")["ts_rs_macros"], "C09", rule="C09.R6")]
+    out = [F.naming_rule(ctx.mir("default")["ts_rs_macros"], "C09"), F.rename_all_fields_rule(ctx.mir("default")["ts_rs_macros"], "C09"), X.inflection_table_rule(ctx.mir("default")["ts_rs_macros"], "C09"), F.variant_name_flow_rule(ctx.mir("default")["ts_rs_macros"], "C09"), T.post_merge_rule(ctx.mir("default")["ts_rs_macros"], "C09", rule="C09.R6")]
     for fs in ctx.featuresets():
         r = T.shared_conversion_rule(ctx.mir(fs)["ts_rs_macros"], "C09")
         if fs != "default":
